@@ -132,6 +132,11 @@ def run_filter(case):
     mem = msyms
   nontriv = (len(bd) + len(ad)) >= 3 or order >= 1
   try:
+    # decoy: a filter with the same delays but other coefficient values, run first in the same
+    # process (anything remembered between calls - compiled loops, memories - must not leak)
+    dec_b = {k: (c + 1 if c + 1 != 0 else c + 2) for k, c in bd.items()} or {0: 1}
+    dec_a = {k: (c if k == 0 else c * 2) for k, c in ad.items()}
+    list(ZFilter(dict(dec_b), dict(dec_a))([Q(3), Q(-1), Q(2)], zero=Q(7)))
     filt = build(ctor, b, a)
     kw = {}
     if memk != "none":
